@@ -90,6 +90,7 @@ struct ClientCB : public Server::Client::ICallback
     byte buf[4]; usize n = 0;
     bool ok = self->read(buf, 4, n);
     if(!ok) failRead = true;
+    if(!ok && action == 4) { removed = true; g_p->remove(*(ClientImpl*)self); }                                          // remove itself after the failed read queued it for onClosed
   }
   virtual void onWrite() { vf_assert(!removed, "a removed client never receives another callback"); ++writes; }
   virtual void onClosed() { vf_assert(!removed, "a removed client never receives another callback"); ++closed; removed = true; g_p->remove(*(ClientImpl*)self); }
@@ -103,7 +104,7 @@ extern "C" int clients()
     for(unsigned i = 0; i < 2; ++i)
     {
       cb[i].id = i; cb[i].reads = cb[i].writes = cb[i].closed = 0; cb[i].removed = false; cb[i].suspended = false; cb[i].failRead = false; cb[i].other = &cb[1 - i];
-      cb[i].action = vf_pick(4);
+      cb[i].action = vf_pick(5);
       cb[i].self = p.pair(cb[i], peers[i]);
       vf_assert(cb[i].self != 0, "pair");
     }
@@ -115,7 +116,8 @@ extern "C" int clients()
     for(unsigned round = 0; round < 4; ++round) { p.interrupt(); p.run(); }
     for(unsigned i = 0; i < 2; ++i)
     {
-      if(cb[i].failRead) vf_assert(cb[i].closed == 1, "a failed read is followed by onClosed");
+      if(cb[i].failRead && cb[i].action != 4) vf_assert(cb[i].closed == 1, "a failed read is followed by onClosed");
+      if(cb[i].failRead && cb[i].action == 4) vf_assert(cb[i].closed == 0, "no onClosed for a client removed after its failed read");
       vf_assert(cb[i].writes == 0, "no write event without write interest");
     }
     if(cb[0].action == 0 && cb[1].action == 0 && scenario == 0) { vf_assert(cb[0].reads >= 1 && cb[1].reads >= 1, "every readable registered socket is dispatched"); }
